@@ -7,7 +7,8 @@ from ..runner import Env, Outcome
 THEOREMS = ["C03_work_conserving", "C03_idle_reducer_sound", "C03_refuted_timer", "C03_refuted_mailbox", "C03_refuted",
             # the runner level: every reachable state of every run, fresh or resumed from whatever state
             "C03_work_conserving_runner", "C03_rewind_exact", "C03_in_progress_is_live", "C03_full_limit_live",
-            "C03_idle_check_exact", "C03_idle_runner_sound", "C03_idle_exceptions_exact", "C03_truly_idle_is_quiescent",
+            "C03_idle_check_exact", "C03_idle_runner_sound", "C03_idle_exceptions_exact", "C03_refuted_unhandled_batch",
+            "C03_truly_idle_is_quiescent",
             # the anchored source as found on this run (harness/gen/idle_shape.py -> WfModel/GenIdleShape.lean)
             "C03_check_idle_is_source", "C03_refill_guard_is_source", "C03_source_shape",
             # the server side (IdleReleaseDecorator, model M7): what is treated as idle, when a release happens
@@ -29,7 +30,10 @@ EXPLANATION = (
     "all queues / in-progress tables empty, NO live worker task, nothing queued by the announcing tick, no step result buffered, and for "
     "WorkflowIdleEvent an EMPTY buffer), so that the run is not truly idle IFF a delayed retry sits in the timer heap or an addEvent in the "
     "mailbox (C03_idle_exceptions_exact = exactly the two known findings), and with both empty nothing but the clock can change without external "
-    "input (C03_truly_idle_is_quiescent). The quiescence test, both refill-loop conditions, the guard around the step-result refill, has_space, "
+    "input (C03_truly_idle_is_quiescent). For UnhandledEvent(idle=True) the empty-buffer clause is NOT claimed: C03_refuted_unhandled_batch is a "
+    "decide-checked witness (a step that hands collect_events an event of a type it does not accept; two retries due at the same instant) in which "
+    "UnhandledEvent(idle=True) is published with a due retry still in the tick buffer, heap and mailbox empty; it replays on the real engine "
+    "(harness/corpus/c03_unhandled_idle_batch.json, reported, not attached to the check). The quiescence test, both refill-loop conditions, the guard around the step-result refill, has_space, "
     "the TickIdleCheck / CommandScheduleIdleCheck branches, the buffer-drain loop, the rewind's shape and the server's idle marker "
     "(WorkflowIdleEvent only; release needs idle_since + idle_timeout elapsed + active; a send to an active run withdraws the mark) are "
     "re-extracted from the sources on every run and proved to be what the model does (C03_check_idle_is_source, C03_refill_guard_is_source, "
